@@ -238,6 +238,9 @@ def _path_shard(spec, emit):
             continue
         rng = rng_for("C05", seed, "path", est_name, rep)
         n, p = int(rng.integers(12, 40)), int(rng.integers(3, 18))
+        wide = bool(rng.random() < 0.12)
+        if wide:         # many more features than the first working set: the sweep has to grow it from column to column
+            n, p = int(rng.integers(40, 100)), int(rng.integers(60, 250))
         X = C.make_X(rng, n, p, str(rng.choice(["gauss", "ar", "shifted"])), rho=0.9)
         sparse_in = bool(rng.integers(0, 2)) and est_name not in ("SqrtLasso",)
         icpt = bool(rng.integers(0, 2))
@@ -381,7 +384,7 @@ def _path_shard(spec, emit):
                                       detail="column %d (alpha=%.4g, %s grid, init=%s): stop_crit=%s <= tol=%g but "
                                              "reference violation=%.3g" % (t, a, order, init_kind, sc, tol, cert)))
         rec = dict(base, nontrivial=bool(nconv >= 1), count=dict(path_columns=len(ret_alphas), converged_columns=nconv),
-                   hist={"grid_order": order, "init": init_kind})
+                   hist={"grid_order": order, "init": init_kind, "size": "wide" if wide else "small"})
         if viols:
             rec.update(status="violated", viol=viols[0], viols=viols[:30],
                        obs=dict(alphas=alphas, init=init_kind, n=n, p=p, tol=tol, p0=p0, positive=positive,
